@@ -171,3 +171,12 @@ func tail(s string, n int) string {
 	}
 	return s
 }
+
+// JobFromItem turns a genlab item (corpus file or inline text with options) into a spec job.
+func JobFromItem(key string, it genlab.Item) (SpecJob, error) {
+	data, opts, err := it.Options()
+	if err != nil {
+		return SpecJob{}, err
+	}
+	return SpecJob{Key: key, Spec: data, Opts: opts}, nil
+}
